@@ -82,3 +82,61 @@ From Spec Require TablesOK.
 Theorem C02_no_bare_word_exemption : TablesOK.tables_ok_bare current = true.
 Proof. vm_compute. reflexivity. Qed.
 Print Assumptions C02_no_bare_word_exemption.
+
+(* ---------- selective mode ---------- *)
+From Proofs Require Import SelHot SelLine SelNI SelNILine.
+Close Scope string_scope.
+
+(* With --redactFieldsRegexp R the sensitive literals are those under a name matching R (C14). Two trees related by
+   [ssim] - identical except, on clear paths, for the contents of leaves (each keeping its lexical class) that lie
+   UNDER A KEY MATCHING R - are mapped by every walker (outside Atlas Search stages) to the same output tree, for ANY
+   tables, under the side condition [plain] of C14. Obtained by composition: below a matching key the selective walker
+   is the full-mode walker (SelHot.walk_hot), which is non-interfering (walk_ni); above, the two runs go in lock step. *)
+Theorem C02_selective_mode_walkers : forall tb cs c A r t t' m,
+  re c = Some r -> ~ In (""%string, Exempt) (all_entries tb) ->
+  (forall s s' ph, a_str A s ph = a_str A s' ph) -> (forall n n', a_num A n = a_num A n') -> (forall b b', a_bool A b = a_bool A b') ->
+  mode_cool m -> applicable m t -> mode_ok tb m ->
+  plain tb r false t -> plain tb r false t' -> ssim tb c is_email r t t' ->
+  walk tb cs c is_email A m t = walk tb cs c is_email A m t'.
+Proof. intros tb cs c A r t t' m H1 H2 H3 H4 H5. exact (walk_sni tb cs c is_email A r H1 H2 H3 H4 H5 t t' m). Qed.
+Print Assumptions C02_selective_mode_walkers.
+
+(* the query-bearing values of a command document *)
+Theorem C02_selective_mode : forall tb cs c A r ins k v v',
+  re c = Some r -> ~ In (""%string, Exempt) (all_entries tb) ->
+  (forall s s' ph, a_str A s ph = a_str A s' ph) -> (forall n n', a_num A n = a_num A n') -> (forall b b', a_bool A b = a_bool A b') ->
+  zone_value ins k v = true -> plain tb r false v -> plain tb r false v' -> ssim tb c is_email r v v' ->
+  cmd_member tb cs c A false ins k v = cmd_member tb cs c A false ins k v'.
+Proof. intros tb cs c A r ins k v v' H1 H2 H3 H4 H5. exact (cmd_member_sni tb cs c A r H1 H2 H3 H4 H5 ins k v v'). Qed.
+Print Assumptions C02_selective_mode.
+
+(* non-vacuity: R = (name is "ssn"); the secrets under ssn differ, everything else is identical *)
+Open Scope string_scope.
+Definition c02_r := fun s => String.eqb s "ssn".
+Definition c02_c := {| repl := "R"; nums := false; bools := false; ips := false; nss := false; eager := nil; re := Some c02_r |}.
+Definition c02_flt (a b : string) : json :=
+  JObj [("ssn", JObj [("$in", JArr [JStr a; JStr b])]); ("city", JStr "Paris"); ("owner", JObj [("ssn", JStr b)])].
+Example C02_selective_example_hyp :
+  ssim current c02_c is_email c02_r (c02_flt "x" "y") (c02_flt "a much longer secret" "zz") /\
+  plainb current c02_r false (c02_flt "x" "y") = true /\ plainb current c02_r false (c02_flt "a much longer secret" "zz") = true.
+Proof.
+  split; [|split; vm_compute; reflexivity].
+  apply S_obj. constructor.
+  { split; [reflexivity|]. right. split; [vm_compute; reflexivity|]. split; [vm_compute; reflexivity|]. left. split; [reflexivity|].
+    apply C_obj. constructor; [|constructor].
+    split; [reflexivity|]. right. split; [vm_compute; reflexivity|]. split; [vm_compute; reflexivity|].
+    apply C_arr. constructor; [apply C_leaf; repeat split; vm_compute; reflexivity|].
+    constructor; [apply C_leaf; repeat split; vm_compute; reflexivity | constructor]. }
+  constructor; [split; [reflexivity | left; reflexivity]|].
+  constructor; [|constructor].
+  split; [reflexivity|]. right. split; [vm_compute; reflexivity|]. split; [vm_compute; reflexivity|]. right. split; [reflexivity|].
+  apply S_obj. constructor; [|constructor].
+  split; [reflexivity|]. right. split; [vm_compute; reflexivity|]. split; [vm_compute; reflexivity|]. left. split; [reflexivity|].
+  apply C_leaf. repeat split; vm_compute; reflexivity.
+Qed.
+Example C02_selective_example :
+  walk current current_consts c02_c is_email (real_actions current_consts c02_c None) (MQ false false MNil []) (c02_flt "x" "y") =
+  walk current current_consts c02_c is_email (real_actions current_consts c02_c None) (MQ false false MNil []) (c02_flt "a much longer secret" "zz") /\
+  walk current current_consts c02_c is_email (real_actions current_consts c02_c None) (MQ false false MNil []) (c02_flt "x" "y") =
+  JObj [("ssn", JObj [("$in", JArr [JStr "R"; JStr "R"])]); ("city", JStr "Paris"); ("owner", JObj [("ssn", JStr "R")])].
+Proof. vm_compute. split; reflexivity. Qed.
